@@ -27,7 +27,7 @@ ASSUMPTIONS = ['the reference result of a page is the one obtained from a freshl
                'transcriptions compared exactly, confidences within 1e-12', 'stub OCR network and toy LM as in C07 / C03']
 N = {'quick': 72, 'thorough': 4000}
 CLASSES = ['beam_nolm', 'lm_nocarry', 'lm_carry', 'lm_carry', 'greedy', 'lm_carry_threshold', 'page_parser', 'lm_carry', 'layout_history', 'lm_carry', 'layout_history', 'beam_nolm']
-REQUIRED = ['given_line_pages', 'layout_history_pages', 'layout_pages_without_upright_lines', 'histories', 'page_results_compared', 'pages_after_other_page', 'repeated_pages', 'carry_lines_decoded', 'lines_reprimed_from_last_line', 'confident_lines_skipped',
+REQUIRED = ['pages_under_a_limit_that_others_exceed', 'given_line_pages', 'layout_history_pages', 'layout_pages_without_upright_lines', 'histories', 'page_results_compared', 'pages_after_other_page', 'repeated_pages', 'carry_lines_decoded', 'lines_reprimed_from_last_line', 'confident_lines_skipped',
             'page_parser_pages', 'process_pairs_compared', 'resume_runs_compared']
 KNOWN_DS = 'adaptive down-sampling factor carried over from the previous page'
 LETTERS = list('abc')
@@ -70,10 +70,15 @@ def gen(rng, i, ctx):
               dict(multi_orientation=False, adjust_heights=True, line_filter=False, sorter=True, given_lines=False),
               dict(multi_orientation=False, adjust_heights=False, line_filter=False, sorter=False, given_lines=True),
               dict(multi_orientation=True, adjust_heights=False, line_filter=True, sorter=False, given_lines=False)]
-    opts = dict(combos[((i // len(CLASSES)) * 2 + (1 if i % len(CLASSES) == 10 else 0)) % len(combos)], straight_lines=False)   # fixed cycle, so that every tier / seed covers every combination
+    cidx = ((i // len(CLASSES)) * 2 + (1 if i % len(CLASSES) == 10 else 0)) % len(combos)
+    opts = dict(combos[cidx], straight_lines=False)   # fixed cycle, so that every tier / seed covers every combination
+    # in two of the combinations the megapixel limit is so low that the 600x800 pages exceed it (they are analysed at a coarser resolution) while the small first page does not
+    opts['low_megapixel_limit'] = cidx in (0, 3)
     # (DETECT_STRAIGHT_LINES_IN_REGIONS raises a TypeError in detect_lines_in_region on these inputs on the unchanged tree - not a history effect - and is left off)
+    if cls == 'lm_carry_threshold':
+        thr = [0.3, 0.9, 0.6][(i // len(CLASSES)) % 3]         # thresholds at which some lines are skipped and others decoded, in a fixed cycle
     return {'cls': cls, 'layout_options': opts, 'threshold': thr, 'pool_seed': int(rng.integers(0, 1 << 30)), 'lm_seed': int(rng.integers(0, 1 << 30)), 'k': int(rng.choice([1, 2, 4])),
-            'lm_scale': float(rng.choice([0.5, 1.0, 2.0])), 'sequences': seqs}
+            'lm_scale': float(rng.choice([0.5, 1.0, 2.0])) if cls != 'lm_carry_threshold' else 2.0, 'sequences': seqs}
 
 
 def describe(case):
@@ -84,11 +89,19 @@ def make_page(L, seed, p):
     rng = np.random.default_rng([seed, p])
     pl = L.PageLayout(id='p%d' % p, page_size=(100, 100))
     reg = L.RegionLayout('r', np.array([[0, 0], [10, 0], [10, 10]]))
-    for l in range(int(rng.integers(1, 6))):
+    n = int(rng.integers(1, 6))
+    for l in range(n):
         T = int(rng.integers(2, 9))
-        lg = rng.normal(size=(T, 4)) * float(rng.choice([1, 3, 10, 30]))
-        lg[lg == 0] = 0.1
+        scale = float(rng.choice([1, 3, 10, 30]))
         t = ''.join(LETTERS[int(x)] for x in rng.integers(0, 3, size=int(rng.integers(0, 5)))) if rng.random() < 0.8 else ''
+        # even pages end with a line confident enough to be skipped (it keeps its incoming text), odd pages start with a line that has to be decoded:
+        # the hand-over between two pages is then 'context text without LM state', the case in which the next decoded line is re-primed
+        if p % 2 == 0 and l == n - 1:
+            scale, t = 30.0, (t or 'ab')
+        if p % 2 == 1 and l == 0:
+            scale, T = 1.0, max(T, 4)
+        lg = rng.normal(size=(T, 4)) * scale
+        lg[lg == 0] = 0.1
         reg.lines.append(L.TextLine(id='p%d-l%d' % (p, l), logits=sparse.csc_matrix(lg), characters=LETTERS, logit_coords=[0, T], transcription=t))
     pl.regions.append(reg)
     return pl
@@ -234,7 +247,7 @@ def process_schedules(mon, ctx):
         ids = ['s%d' % j for j in range(6)]
         pipeline.make_batch(root, ids, seed=ctx.seed * 10 + k, n_lines=3, ocr=False)
         procs = []
-        for pc in (1, 3):
+        for pc in (1, 3, 8):
             argv = pipeline.argv_for(root, '%s/out%d' % (root, pc), ['xml', 'line', 'render'], skip=False, extra=['--process-count', str(pc)])
             argv[0] = os.path.join(ctx.repo, 'user_scripts', 'parse_folder.py')
             procs.append(subprocess.Popen([sys.executable] + argv, stdout=subprocess.DEVNULL, stderr=subprocess.DEVNULL, env=env))
@@ -245,15 +258,18 @@ def process_schedules(mon, ctx):
                 p.kill()
                 mon.inconclusive_because('parse_folder subprocess did not finish within 600 s')
                 return
-        a, b = pipeline.snapshot(root + '/out1'), pipeline.snapshot(root + '/out3')
-        mon.count('process_pairs_compared')
-        mon.count('extra_evaluations')
-        mon.cur_desc = {'leg': 'process-count 1 vs 3', 'folder_seed': ctx.seed * 10 + k}
+        a = pipeline.snapshot(root + '/out1')
+        mon.cur_desc = {'leg': 'process-count 1 vs 3 vs 8 (more workers than the 6 pages)', 'folder_seed': ctx.seed * 10 + k}
         if len(a) < 6 * 2:
             mon.violation('harness:exception', {'note': 'sequential parse_folder run produced too few files', 'files': sorted(a)[:5], 'returncodes': [p.returncode for p in procs]})
-        elif a != b:
-            diff = sorted(set(a) ^ set(b)) + [k_ for k_ in a if k_ in b and a[k_] != b[k_]]
-            mon.violation('parallel-run-equals-sequential-run', {'differing_files': diff[:6], 'n_sequential': len(a), 'n_parallel': len(b)})
+        else:
+            for pc in (3, 8):
+                b = pipeline.snapshot(root + '/out%d' % pc)
+                mon.count('process_pairs_compared')
+                mon.count('extra_evaluations')
+                if a != b:
+                    diff = sorted(set(a) ^ set(b)) + [k_ for k_ in a if k_ in b and a[k_] != b[k_]]
+                    mon.violation('parallel-run-equals-sequential-run', {'process_count': pc, 'pages': 6, 'differing_files': diff[:6], 'n_sequential': len(a), 'n_parallel': len(b)})
         shutil.rmtree(root, ignore_errors=True)
 
 
@@ -384,7 +400,7 @@ def check_layout_history(case, mon, ctx):
     d = {'PAGE_PARSER': {'RUN_LAYOUT_PARSER': 'yes', 'RUN_LINE_CROPPER': 'yes', 'RUN_OCR': 'yes', 'RUN_DECODER': 'no'},
          'LAYOUT_PARSER_1': {'METHOD': 'LAYOUT_CNN', 'MODEL_PATH': 'parsenet.pt', 'USE_CPU': 'yes', 'DETECT_REGIONS': 'yes', 'DETECT_LINES': 'yes',
                              'DETECT_STRAIGHT_LINES_IN_REGIONS': yn(o['straight_lines']), 'MERGE_LINES': 'no', 'MULTI_ORIENTATION': yn(o['multi_orientation']),
-                             'ADJUST_HEIGHTS': yn(o['adjust_heights']), 'ADJUST_BASELINES': 'no', 'DOWNSAMPLE': '2', 'ADAPTIVE_DOWNSAMPLE': 'no', 'DETECTION_THRESHOLD': '0.2', 'MAX_MEGAPIXELS': '5'},
+                             'ADJUST_HEIGHTS': yn(o['adjust_heights']), 'ADJUST_BASELINES': 'no', 'DOWNSAMPLE': '2', 'ADAPTIVE_DOWNSAMPLE': 'no', 'DETECTION_THRESHOLD': '0.2', 'MAX_MEGAPIXELS': '0.05' if o.get('low_megapixel_limit') else '5'},
          'LINE_CROPPER': {'INTERP': '2', 'LINE_SCALE': '1', 'LINE_HEIGHT': '16'}, 'OCR': {'OCR_JSON': './eng/ocr.json', 'USE_CPU': 'yes'}}
     if o.get('given_lines'):
         # lines come with the page (input PAGE XML); the only layout stage is the direction filter with its orientation network
@@ -409,8 +425,13 @@ def check_layout_history(case, mon, ctx):
         if kind in ('vertical_only', 'mixed'):
             vl = [(int(x), 80, int(rng.integers(300, 520))) for x in ([620, 700] if kind == 'mixed' else [200, 400, 620])][:int(rng.integers(1, 4))]
         # with the horizontal-runs stub the upright pass sees no line in a vertical stroke (4 px wide), the rotated passes do
-        img = ctx.stubs.stroke_image(hl, vl, H=600, W=800, asc=int(rng.integers(8, 18)), desc=int(rng.integers(3, 8)), vthick=2)
-        img[:, :, :] = np.maximum(img, (rng.integers(0, 20, size=(600, 800, 1))).astype(np.uint8) * (img[:, :, 2:3] == 0))   # faint texture, same in all channels
+        Hh, Ww = 600, 800
+        if kind == 'upright' and o.get('low_megapixel_limit'):
+            Hh, Ww = 300, 400        # 0.12 Mpx: under the limit of 2*2*0.05 Mpx, the other pages (0.48 Mpx) are over it
+            hl = [(y // 2, x0 // 2, x1 // 2) for y, x0, x1 in hl]
+            mon.count('pages_under_a_limit_that_others_exceed')
+        img = ctx.stubs.stroke_image(hl, vl, H=Hh, W=Ww, asc=int(rng.integers(8, 18)), desc=int(rng.integers(3, 8)), vthick=2)
+        img[:, :, :] = np.maximum(img, (rng.integers(0, 20, size=(Hh, Ww, 1))).astype(np.uint8) * (img[:, :, 2:3] == 0))   # faint texture, same in all channels
         pages.append((kind, img))
 
     given = None
@@ -442,7 +463,7 @@ def check_layout_history(case, mon, ctx):
 
     def run(parser, p):
         random.seed(1234 + p); np.random.seed(1234 + p)       # the engine orders lines with random jitter: same jitter for the reference and the history run
-        pl = L.PageLayout(id='p%d' % p, page_size=(600, 800))
+        pl = L.PageLayout(id='p%d' % p, page_size=tuple(pages[p][1].shape[:2]))
         if given is not None:
             from pero_ocr.layout_engines import layout_helpers as hlp
             reg = L.RegionLayout('r1', np.array([[0.0, 0.0], [800.0, 0.0], [800.0, 600.0], [0.0, 600.0]]))
